@@ -217,4 +217,85 @@ theorem encodeChars_inj_ascii : ∀ (as cs : List Char), (∀ c ∈ as, c.toNat 
         simp only [UInt8.toNat_ofNat'] at h1
         omega
 
+/-! ## decoding an encoded character -/
+
+theorem char_range (c : Char) : c.toNat < 0xD800 ∨ (0xDFFF < c.toNat ∧ c.toNat < 0x110000) := by
+  have h := c.valid
+  have : c.toNat = c.val.toNat := rfl
+  rw [this]
+  rcases h with h | ⟨h1, h2⟩
+  · left; omega
+  · right; omega
+
+/-- `utf8.DecodeRuneInString` on the encoding of `c` followed by anything returns `c` and its width -/
+theorem decodeRune_encChar (c : Char) (r : List UInt8) :
+    decodeRune (encChar c ++ r) = (c.toNat, (encChar c).length) := by
+  have hr := char_range c
+  rw [encChar_eq]
+  by_cases h1 : c.toNat ≤ 127
+  · rw [if_pos h1]
+    simp only [List.cons_append, List.nil_append, decodeRune, UInt8.toNat_ofNat', List.length_cons, List.length_nil]
+    rw [if_pos (by omega)]
+    congr 1
+    omega
+  · rw [if_neg h1]
+    by_cases h2 : c.toNat ≤ 2047
+    · rw [if_pos h2]
+      simp only [List.cons_append, List.nil_append, decodeRune, dec2, isCont, UInt8.toNat_ofNat', List.length_cons,
+        List.length_nil]
+      rw [if_neg (by omega), if_neg (by omega), if_pos (by omega)]
+      rw [if_pos (by simp only [Bool.and_eq_true, decide_eq_true_eq]; omega)]
+      congr 1
+      omega
+    · rw [if_neg h2]
+      by_cases h3 : c.toNat ≤ 65535
+      · rw [if_pos h3]
+        simp only [List.cons_append, List.nil_append, decodeRune, dec3, isCont, lo2, hi2, UInt8.toNat_ofNat',
+          List.length_cons, List.length_nil]
+        rw [if_neg (by omega), if_neg (by omega), if_neg (by omega), if_pos (by omega)]
+        have hcond : (decide ((if (c.toNat / 4096 % 16 + 224) % 256 = 224 then 160
+              else if (c.toNat / 4096 % 16 + 224) % 256 = 240 then 144 else 128) ≤ (c.toNat / 64 % 64 + 128) % 256) &&
+            decide ((c.toNat / 64 % 64 + 128) % 256 ≤ (if (c.toNat / 4096 % 16 + 224) % 256 = 237 then 159
+              else if (c.toNat / 4096 % 16 + 224) % 256 = 244 then 143 else 191)) &&
+            (decide (128 ≤ (c.toNat % 64 + 128) % 256) && decide ((c.toNat % 64 + 128) % 256 ≤ 191))) = true := by
+          simp only [Bool.and_eq_true, decide_eq_true_eq]
+          refine ⟨⟨?_, ?_⟩, ?_, ?_⟩
+          · split
+            · omega
+            · split <;> omega
+          · split
+            · omega
+            · split <;> omega
+          · omega
+          · omega
+        rw [if_pos hcond]
+        congr 1
+        omega
+      · rw [if_neg h3]
+        simp only [List.cons_append, List.nil_append, decodeRune, dec4, isCont, lo2, hi2, UInt8.toNat_ofNat',
+          List.length_cons, List.length_nil]
+        rw [if_neg (by omega), if_neg (by omega), if_neg (by omega), if_neg (by omega), if_pos (by omega)]
+        have hcond : (decide ((if (c.toNat / 262144 % 8 + 240) % 256 = 224 then 160
+              else if (c.toNat / 262144 % 8 + 240) % 256 = 240 then 144 else 128) ≤
+                (c.toNat / 4096 % 64 + 128) % 256) &&
+            decide ((c.toNat / 4096 % 64 + 128) % 256 ≤ (if (c.toNat / 262144 % 8 + 240) % 256 = 237 then 159
+              else if (c.toNat / 262144 % 8 + 240) % 256 = 244 then 143 else 191)) &&
+            (decide (128 ≤ (c.toNat / 64 % 64 + 128) % 256) && decide ((c.toNat / 64 % 64 + 128) % 256 ≤ 191)) &&
+            (decide (128 ≤ (c.toNat % 64 + 128) % 256) && decide ((c.toNat % 64 + 128) % 256 ≤ 191))) = true := by
+          simp only [Bool.and_eq_true, decide_eq_true_eq]
+          refine ⟨⟨⟨?_, ?_⟩, ?_, ?_⟩, ?_, ?_⟩
+          · split
+            · omega
+            · split <;> omega
+          · split
+            · omega
+            · split <;> omega
+          · omega
+          · omega
+          · omega
+          · omega
+        rw [if_pos hcond]
+        congr 1
+        omega
+
 end Goyang.Lemmas.Utf8
